@@ -48,6 +48,37 @@ ACC = [("isoformat", lambda d: d.isoformat()), ("isoformat_sep_ms", lambda d: d.
        ("astimezone(utc)", lambda d: (fields(d.astimezone(dt.timezone.utc)), d.astimezone(dt.timezone.utc).utcoffset())),
        ("astimezone(zi)", lambda d: d.astimezone(zoneinfo.ZoneInfo("Asia/Kathmandu")).isoformat()),
        ("fold", lambda d: d.fold), ("fields", fields)]
+
+
+class _RuleTz(dt.tzinfo):
+    """a user-defined tzinfo in the style of the datetime documentation: standard offset, DST from April to October"""
+    def __init__(self, hours, name):
+        self._std, self._name = dt.timedelta(hours=hours), name
+
+    def utcoffset(self, d):
+        return self._std + self.dst(d)
+
+    def dst(self, d):
+        return dt.timedelta(hours=1) if d is not None and 4 <= d.month <= 10 else dt.timedelta(0)
+
+    def tzname(self, d):
+        return self._name + ("-summer" if self.dst(d) else "")
+
+
+def _view(d):
+    return (d.isoformat(), d.tzname(), d.dst(), d.utcoffset(), tuple(d.timetuple()), d.strftime("%Z %z"), d.ctime())
+
+
+_TARGETS = [("timezone.utc", dt.timezone.utc), ("timezone(+05:30)", dt.timezone(dt.timedelta(hours=5, minutes=30))),
+            ("timezone(-03:00,'XYZ')", dt.timezone(dt.timedelta(hours=-3), "XYZ")), ("custom-rule-tzinfo", _RuleTz(-5, "RULE")),
+            ("zoneinfo", zoneinfo.ZoneInfo("Europe/Dublin"))]
+try:
+    import dateutil.tz as _dtz
+
+    _TARGETS.append(("dateutil", _dtz.gettz("Europe/Paris")))
+except Exception:  # noqa: BLE001
+    pass
+ACC += [("astimezone[%s]" % n, (lambda t: (lambda d: _view(d.astimezone(t))))(t)) for n, t in _TARGETS]
 DACC = [("isoformat", lambda d: d.isoformat()), ("strftime", lambda d: d.strftime("%Y-%m-%d %j %a %A %U %W %G %V %u %y %b %B %x")),
         ("timetuple", lambda d: tuple(d.timetuple())), ("toordinal", lambda d: d.toordinal()), ("weekday", lambda d: d.weekday()),
         ("isoweekday", lambda d: d.isoweekday()), ("isocalendar", lambda d: tuple(d.isocalendar())), ("ctime", lambda d: d.ctime()),
